@@ -519,39 +519,70 @@ async fn pair(payload: &str, keys: Arc<Keys>, bounded: bool) -> String {
     )
 }
 
+async fn dispatch(which: &str, payload: &str, keys: Arc<Keys>) -> String {
+    match which {
+        "c20" => c20(payload, keys).await,
+        "c19" => pair(payload, keys, false).await,
+        "c21" => {
+            // the deadlock depends on how tokio's select! orders its ready arms: repeat the
+            // session (fresh stores every time) and report the first attempt that hangs
+            let tries = num(field(payload, "tries").unwrap_or("1"));
+            let mut last = String::new();
+            let mut hung = None;
+            for t in 0..tries {
+                last = pair(payload, keys.clone(), true).await;
+                if last.starts_with("timeout") {
+                    hung = Some(t + 1);
+                    break;
+                }
+                if !last.starts_with("done") {
+                    break;
+                }
+            }
+            match hung {
+                Some(t) => format!("{last} attempt={t}"),
+                None => format!("{last} attempts={tries}"),
+            }
+        }
+        _ => "unknown sub-command".to_string(),
+    }
+}
+
 fn main() {
     let which = std::env::args().nth(1).unwrap_or_else(|| "c20".to_string());
-    let rt = tokio::runtime::Builder::new_current_thread().enable_all().build().unwrap();
     let keys = Arc::new(Keys::new());
     h_common::run_cases(|payload| {
-        let keys = keys.clone();
-        rt.block_on(async {
-            match which.as_str() {
-                "c20" => c20(payload, keys).await,
-                "c19" => pair(payload, keys, false).await,
-                "c21" => {
-                    // the deadlock depends on how tokio's select! orders its ready arms: repeat the
-                    // session (fresh stores every time) and report the first attempt that hangs
-                    let tries = num(field(payload, "tries").unwrap_or("1"));
-                    let mut last = String::new();
-                    let mut hung = None;
-                    for t in 0..tries {
-                        last = pair(payload, keys.clone(), true).await;
-                        if last.starts_with("timeout") {
-                            hung = Some(t + 1);
-                            break;
-                        }
-                        if !last.starts_with("done") {
-                            break;
-                        }
-                    }
-                    match hung {
-                        Some(t) => format!("{last} attempt={t}"),
-                        None => format!("{last} attempts={tries}"),
-                    }
+        // Every case runs on its own thread with its own runtime under a watchdog: a session that
+        // spins without ever yielding (so that no timer inside the runtime can fire) is reported
+        // as `timeout spin` and its thread is abandoned (it dies with the process).
+        let ms = num(field(payload, "ms").unwrap_or("20000")) as u64;
+        let tries = num(field(payload, "tries").unwrap_or("1")) as u64;
+        let limit = Duration::from_millis(if which == "c21" { ms * 3 * tries + 30_000 } else { 180_000 });
+        let (tx, rx) = std::sync::mpsc::channel::<String>();
+        let (which, keys, payload) = (which.clone(), keys.clone(), payload.to_string());
+        std::thread::spawn(move || {
+            let res = std::panic::catch_unwind(std::panic::AssertUnwindSafe(|| {
+                let rt = tokio::runtime::Builder::new_current_thread().enable_all().build().unwrap();
+                rt.block_on(dispatch(&which, &payload, keys))
+            }));
+            let line = match res {
+                Ok(s) => s,
+                Err(e) => {
+                    let msg = if let Some(s) = e.downcast_ref::<&str>() {
+                        s.to_string()
+                    } else if let Some(s) = e.downcast_ref::<String>() {
+                        s.clone()
+                    } else {
+                        "?".to_string()
+                    };
+                    format!("PANIC {}", msg.replace('\n', " "))
                 }
-                _ => "unknown sub-command".to_string(),
-            }
-        })
+            };
+            let _ = tx.send(line);
+        });
+        match rx.recv_timeout(limit) {
+            Ok(line) => line,
+            Err(_) => "timeout spin (no answer from the session thread: busy loop without yield point)".to_string(),
+        }
     });
 }
